@@ -1,5 +1,5 @@
 // C20: ParticleSwarm only evaluates inside the domain and tracks the true best.
-// args: particles dims iters1 iters2 edit(0 none,1 clearCache,2 clearBestParticles,3 both,4 setParticlePositions+clearCache) split_check(0/1)
+// args: particles dims iters1 iters2 edit(0 none,1 clearCache,2 clearBestParticles,3 both,4 setParticlePositions+clearCache) split_check(0/1) [iters3 edit2: a third call after a second state edit]
 // built with -fno-access-control: the cached values are private members
 #include "TasmanianOptimization.hpp"
 #include "fpsym.h"
@@ -35,7 +35,7 @@ struct World {
 };
 
 int main(int argc, char **argv){
-  int P = atoi(argv[1]), D = atoi(argv[2]), it1 = atoi(argv[3]), it2 = atoi(argv[4]), edit = atoi(argv[5]), split = atoi(argv[6]);
+  int P = atoi(argv[1]), D = atoi(argv[2]), it1 = atoi(argv[3]), it2 = atoi(argv[4]), edit1 = atoi(argv[5]), split = atoi(argv[6]); int it3 = argc > 8 ? atoi(argv[7]) : -1, edit2 = argc > 8 ? atoi(argv[8]) : 0; int nph = it3 >= 0 ? 3 : 2; int edit = edit1;
   std::vector<double> pos(P * D), vel(P * D);
   for (int i=0;i<P*D;i++){ pos[i] = fpsym_symbolic(0.3 * (i + 1) - 0.5, 10 + i, -2.0, 2.0); vel[i] = fpsym_symbolic(0.2 - 0.15 * i, 40 + i, -1.0, 1.0); }
   World w; w.P = P; w.D = D;
@@ -46,8 +46,13 @@ int main(int argc, char **argv){
   // histories carry a suffix so that the known finding is matched by history, not by property clause
   std::string hist = ""; bool hist_pending = false;
   double prev_best = 0; bool have_prev = false;
-  for (int phase = 0; phase < 2; phase++){
-    w.call(state, phase == 0 ? it1 : it2);
+  std::vector<std::vector<fpsym_key_t>> must_revisit;   // best positions known when clearCache() was issued: they stay candidates, the next call evaluates them again
+  for (int phase = 0; phase < nph; phase++){
+    edit = phase == 0 ? edit1 : edit2;
+    w.call(state, phase == 0 ? it1 : (phase == 1 ? it2 : it3));
+    for (auto &k : must_revisit){ bool seen = false; for (size_t e = window; e < w.log.size(); e++){ bool same = true; for (int j=0;j<D;j++) if (fpsym_key(w.log[e].x[j]) != k[j]) same = false; if (same) seen = true; }
+      fpsym_check(seen, (std::string("after clearCache() the best positions known before are evaluated again by the next call (they stay candidates for the best)") + hist).c_str()); }
+    must_revisit.clear();
     fpsym_check(!w.mismatch, "objective receives exactly the in-domain points of the batch");
     if (getenv("C20_DEBUG")){ fprintf(stderr, "phase %d window %zu\n", phase, window); for (size_t e=0;e<w.log.size();e++) fprintf(stderr, "  log %zu id %d x0 %g in %d v %g\n", e, w.idOf(w.log[e].x), fpsym_concrete(w.log[e].x[0]), (int) w.log[e].inside, fpsym_concrete(w.log[e].v));
       for (int i=0;i<=P;i++) fprintf(stderr, "  best slot %d inside %d fval %g pos %g\n", i, (int) state.cache_best_particle_inside[i], fpsym_concrete(state.cache_best_particle_fvals[i]), fpsym_concrete(state.getBestParticlePositions()[i*D])); }
@@ -92,8 +97,8 @@ int main(int argc, char **argv){
       }
       if (state.cache_best_particle_inside[P]) fpsym_le(state.cache_best_particle_fvals[P], bv, 10.0, (std::string("swarm best value <= particle best value") + hist).c_str());
     }
-    if (phase == 1) break;
-    if (split && edit == 0){
+    if (phase == nph - 1) break;
+    if (split && edit == 0 && nph == 2){
       // n then m iterations == n+m iterations on the same random stream, objective and domain
       World w2; w2.P = P; w2.D = D;
       ParticleSwarmState s2(D, std::vector<double>(pos), std::vector<double>(vel));
@@ -116,10 +121,11 @@ int main(int argc, char **argv){
       if (edit == 4){ std::vector<double> np(P * D); for (int i=0;i<P*D;i++) np[i] = fpsym_symbolic(-0.4 + 0.35 * i, 70 + i, -2.0, 2.0); state.setParticlePositions(np); }
       bool unset = false; for (int i=0;i<=P;i++) if (!state.cache_best_particle_inside[i]) unset = true;
       if (unset && state.best_positions_initialized) hist_pending = true;
+      if (edit != 4){ std::vector<double> bp = state.getBestParticlePositions(); for (int i=0;i<=P;i++) if (state.cache_best_particle_inside[i]){ std::vector<fpsym_key_t> k(D); for (int j=0;j<D;j++) k[j] = fpsym_key(bp[i * D + j]); must_revisit.push_back(k); } }
       state.clearCache(); window = w.log.size(); have_prev = false;   // everything is re-evaluated on the next call
     }
     if (edit == 2 || edit == 3){
-      state.clearBestParticles();
+      state.clearBestParticles(); must_revisit.clear();   // the bests are forgotten on request
       // best particles forgotten: what remains known are the cached values of the current positions (latest batch of P domain tests)
       if (edit == 2) window = w.log.size() >= (size_t) P ? w.log.size() - P : 0; else window = w.log.size();
       have_prev = false;
